@@ -9,7 +9,7 @@ ID = "C07"
 TITLE = "CUR and PCov-CUR select by leverage score on the orthogonalised residual"
 TECHNIQUE = 'Hypothesis PBT against dense SVD/eigh leverage scores on an independent projection residual; scores used are recorded by a wrapper; gap-aware'
 LEVEL = 'Generated-input exploration: each selection maximises the independently computed importance score as of the last refresh, recorded scores equal the oracle, exposed residual equals the projection and is orthogonal to selected items, duality and mixing=1 relations. No absence claim: strength = the counted distinct non-trivial cases in the evidence.'
-BUDGET = {"quick": 1200, "thorough": 12000}
+BUDGET = {"quick": 1200, "thorough": 24000}
 RULE = ("Cases: CUR / PCovCUR x {feature, sample}; X kinds generic, eighths (near ties), lowrank, dup and nearly low-rank (rank-r part + 1e-5 full-rank part) with a global scale in "
         "{1e-7,1e-3,.1,1,10} (1e3 only with tolerance 1e-8), 4..13 x 4..10 (thorough: to 40 x 24); numerical rank r is measured and the number of selections is drawn in "
         "[1, r-k]; y 1-D; k in 1..3 (k < min shape); mixing {0,.2,.5,.8,1}; recompute_every {0,1,2,3}; tolerance {1e-12,1e-8}; 30% of the cases reach the request through a warm start whose first part used another refresh interval (final residual judged).  "
